@@ -48,6 +48,7 @@ type Obligation struct {
 	OnlyProps bool // Props was set by a `clauseprops` directive: the obligation belongs to those properties only
 	fx     *FnExec
 	Expect string // "unsat" normally; "sat" for cover obligations
+	file   string // query file (assigned when first solved; unique per obligation)
 }
 
 type loopInfo struct {
@@ -62,6 +63,7 @@ type loopInfo struct {
 }
 
 type FnExec struct {
+	nameTag  string // appended to the function's display key in obligation names when the function is verified more than once
 	e        *Engine
 	fn       *ssa.Function
 	c        *Ctx
@@ -304,7 +306,7 @@ func (fx *FnExec) oblige(class, label, goal, text string, p token.Pos) *Obligati
 	} else {
 		name += fmt.Sprintf("#%d", fx.ord(class))
 	}
-	o := &Obligation{Name: displayKey(fx.key) + "/" + name, Class: class, Fn: fx.key, Goal: sImp(fx.curReach, goal), Upto: fx.c.mark(), Pos: fx.pos(p), Text: text, fx: fx, Expect: "unsat"}
+	o := &Obligation{Name: displayKey(fx.key) + fx.nameTag + "/" + name, Class: class, Fn: fx.key, Goal: sImp(fx.curReach, goal), Upto: fx.c.mark(), Pos: fx.pos(p), Text: text, fx: fx, Expect: "unsat"}
 	fx.obls = append(fx.obls, o)
 	// after checking, the fact may be assumed
 	fx.assume(goal)
